@@ -5,7 +5,7 @@ from pv import obs_tables as T
 def run(report):
     add_obs(report, lambda: T.all_versions(which=('ll1',))[0], name='tables')
     verify_keys(report, ['parso.parser.BaseParser._add_token', 'parso.parser.BaseParser._pop', 'parso.parser.StackNode.__init__',
-                         'parso.python.parser.Parser.convert_leaf', 'parso.tree.Leaf.__init__', 'parso.tree.ErrorLeaf.__init__',
+                         'parso.python.parser.Parser.convert_leaf', 'parso.python.parser.Parser.__init__', 'parso.parser.BaseParser.__init__', 'parso.tree.Leaf.__init__', 'parso.tree.ErrorLeaf.__init__',
                          'parso.tree.BaseNode.__init__', 'parso.tree.Node.__init__'])
     report.assume("engine: _add_token / _pop are proved free of IndexError / KeyError / AttributeError and to keep the stack "
                   "shape under the preconditions 'stack non-empty and well formed', 'tables well formed' (T obligations) and "
